@@ -50,6 +50,15 @@ type Case struct {
 	NPref  int      `json:"npref,omitempty"`  // frame: number of strict prefixes tried
 	Src     string   `json:"src,omitempty"`     // corpus file
 	Payload string   `json:"payload,omitempty"` // frame: record payload (hex)
+	Lim     int      `json:"lim,omitempty"`     // col: rows per segment
+	Cols    []ColIn  `json:"cols,omitempty"`    // col: data columns (vals = timestamps)
+	Segs    [][]string `json:"segs,omitempty"`  // col: real segment bytes [column][segment], time column last
+	Bad     string   `json:"bad,omitempty"`     // col: first difference found by the oracle
+	BadCol  string   `json:"badcol,omitempty"`  // col: column type of that difference
+	BadSeg  int      `json:"badseg,omitempty"`  // col: segment index of that difference
+	Bounds  []int    `json:"bounds,omitempty"`  // rows: byte offsets of the row boundaries
+	PPanic  int      `json:"ppanic,omitempty"`  // rows: prefixes rejected by a (recovered) panic
+	Seed    uint64   `json:"seed,omitempty"`    // rows/record: generator seed of the case
 	seed    uint64
 }
 
@@ -680,7 +689,25 @@ func genFloats(r *gen.Rand) (string, []uint64) {
 	vs := make([]uint64, n)
 	shape := ""
 	fb := math.Float64bits
-	switch r.Intn(14) {
+	switch r.Intn(16) {
+	case 14, 15:
+		// exactly one NaN (any payload) at the first, second, last or a random position among many distinct ordinary
+		// values (integral: gorilla-friendly, or decimals): the NaN must be noticed wherever it sits
+		shape = "one-nan-at-position"
+		if n < 12 {
+			n = r.Range(12, 40)
+			vs = make([]uint64, n)
+		}
+		integral := r.Chance(2, 3)
+		for i := range vs {
+			if integral {
+				vs[i] = fb(float64(i*7 + r.Intn(5)))
+			} else {
+				vs[i] = fb(float64(i*7+r.Intn(5)) + 0.123456789)
+			}
+		}
+		pos := []int{0, 0, 1, n - 1, r.Intn(n)}[r.Intn(5)]
+		vs[pos] = []uint64{fNaN1, fNaN2, fNaN3, fNaN4, math.Float64bits(math.NaN())}[r.Intn(5)]
 	case 0:
 		shape = "constant"
 		v := fb(float64(r.Intn(1000)) / 8)
@@ -916,6 +943,10 @@ func runCase(c *Case) {
 		runFrame(c)
 	case "record":
 		runRecord(c)
+	case "col":
+		runCol(c)
+	case "rows":
+		runRows(c)
 	}
 	gen.Emit(c)
 }
@@ -949,7 +980,8 @@ func main() {
 					fmt.Fprintln(os.Stderr, "bad corpus line in", f, err)
 					os.Exit(3)
 				}
-				c := Case{K: in.K, Vals: in.Vals, Strs: in.Strs, Algo: in.Algo, Typ: in.Typ, Payload: in.Payload, Shape: "corpus", Src: filepath.Base(f)}
+				c := Case{K: in.K, Vals: in.Vals, Strs: in.Strs, Algo: in.Algo, Typ: in.Typ, Payload: in.Payload, Lim: in.Lim, Cols: in.Cols,
+					Seed: in.Seed, seed: in.Seed, Shape: "corpus", Src: filepath.Base(f)}
 				if c.Vals == nil {
 					c.Vals = []uint64{}
 				}
@@ -961,7 +993,11 @@ func main() {
 	r := gen.FromEnv(7)
 	for i := 0; i < n; i++ {
 		c := Case{}
-		switch k := i % 12; {
+		switch k := i % 16; {
+		case k >= 12 && k < 15:
+			genCol(r, &c)
+		case k == 15:
+			genRowsCase(r, &c)
 		case k < 3:
 			c.K = "int"
 			c.Shape, c.Vals = genInts(r)
